@@ -508,7 +508,9 @@ def classify_names(names):
     except vlib.Broken:
         ok = False
         for n in todo:
-            NAME_CLASS[n] = {"sem": TABLE.get(n), "const": n == "Constant", "3mr": "3mr" in n, "source": "property table (fallback)"}
+            # names the property does not word cannot be classified without the generated dispatch: they are not run
+            NAME_CLASS[n] = {"sem": TABLE.get(n, "unclassified"), "const": n == "Constant", "3mr": "3mr" in n,
+                             "source": "property table (fallback)"}
     return ok
 
 
@@ -752,7 +754,7 @@ def evaluate(cases, stats=None, budget=8e6):
                 if not (isinstance(s, float) and s == 0.0):
                     v["bad"].append({"clause": "Constant scores are 0", "row": [a, b, s], "expected": 0.0})
                 continue
-            if sem in (None, "fallback", "surrogate"):
+            if sem in (None, "fallback", "surrogate", "unclassified"):
                 continue
             orients = orientations(a, b, i, j, lbl)
             exp = []
@@ -907,7 +909,7 @@ def _check(run, replay):
     run.oblige("dispatch class = the property's wording for the heuristics it names (C05_table)", not disagree, str(disagree))
     heur = list(TABLE)
     for d in doc:
-        if d not in TABLE and NAME_CLASS[d]["sem"] != "surrogate":
+        if d not in TABLE and NAME_CLASS[d]["sem"] not in ("surrogate", "unclassified"):
             heur.append(d)
     run.cov["documented_names_reaching_the_surrogate_scorer_not_run"] = [d for d in doc if NAME_CLASS[d]["sem"] == "surrogate"]
     silent = [d for d in doc if NAME_CLASS[d]["sem"] == "fallback"]
